@@ -397,7 +397,11 @@ theorem tie_stmtsStreamSymlink : Generated.stmtsStreamSymlink = (["if target, er
 
 theorem tie_streamFilesAppend : Generated.streamFilesAppend = "files = append(files, *header)" := by rfl
 
-theorem tie_stmtsLazyLoop : Generated.stmtsLazyLoop = (["installed, err := wh.WriteHeader(file.Header, tf, pkg)",
+/- The first statement is the empty-name guard added by the repair recorded as F15c (C15).  It is
+outside the model's domain: every theorem here takes `WF e`, which makes names non-empty, and the
+generator never emits an empty name; the guard itself is exercised by C15's hostile-apk inputs. -/
+theorem tie_stmtsLazyLoop : Generated.stmtsLazyLoop = (["if file.Header.Name == \"\" { return nil, fmt.Errorf(\"package %s contains a tar entry with an empty name\", pkg.Name) }",
+  "installed, err := wh.WriteHeader(file.Header, tf, pkg)",
   "if err != nil { return nil, err }",
   "if installed && file.Header.Typeflag == tar.TypeReg { a.installedFiles[file.Header.Name] = pkg }",
   "files = append(files, file.Header)"] : List String) := by rfl
